@@ -15,7 +15,7 @@ KNOWN_TEXT = {
 USES = {
     "C09": dict(programs=True, random=True, shapes=False),
     "C10": dict(programs=False, random=True, shapes=True),
-    "C11": dict(programs=True, random=True, shapes=False),
+    "C11": dict(programs=True, random=True, shapes=True),
     "C12": dict(programs=False, random=True, shapes=False),
 }
 
